@@ -51,8 +51,9 @@ def rawSpell : Bytes → Bytes
   | [] => []
   | c :: cs => if c = 0x27 then 0x5C :: 0x27 :: rawSpell cs else c :: rawSpell cs
 
-/-- The strings the raw-string syntax can spell: no backslash directly before
-    a quote, and no backslash at the end. -/
+/-- A sufficient (not necessary) condition for a string to be spellable: no backslash directly
+    before a quote, and no backslash at the end.  Superseded by `RawEndOK` (`RawOK.toEnd`); kept
+    for reference. -/
 def RawOK : Bytes → Prop
   | [] => True
   | [c] => c ≠ 0x5C
@@ -68,9 +69,56 @@ theorem rawSpell_len (s : Bytes) : s.length ≤ (rawSpell s).length := by
   | nil => simp [rawSpell]
   | cons c cs ih => simp only [rawSpell]; split <;> simp <;> omega
 
-/-- C14 (raw strings): for every ASCII string `s` the syntax can spell, scanning
+/-- The strings the raw-string syntax can spell: exactly those that do not end
+    with a backslash (which would escape the closing quote).  A backslash
+    directly before a quote is fine: `\'` is spelled `\\'`, the scanner keeps the
+    first backslash (the byte after it is not a quote) and reads `\'` as the quote. -/
+def RawEndOK : Bytes → Prop
+  | [] => True
+  | [c] => c ≠ 0x5C
+  | _ :: d :: rest => RawEndOK (d :: rest)
+
+theorem RawEndOK_tail (c : UInt8) (cs : Bytes) (h : RawEndOK (c :: cs)) : RawEndOK cs := by
+  cases cs with
+  | nil => trivial
+  | cons d ds => exact h
+
+theorem RawEndOK_cons (c d : UInt8) (ds : Bytes) : RawEndOK (c :: d :: ds) ↔ RawEndOK (d :: ds) := Iff.rfl
+
+/-- `RawOK` (no backslash before a quote and none at the end) is the stronger condition. -/
+theorem RawOK.toEnd : ∀ {s : Bytes}, RawOK s → RawEndOK s
+  | [], _ => trivial
+  | [_], h => h
+  | _ :: d :: ds, h => RawOK.toEnd (s := d :: ds) h.2
+
+/-- The recursive form says: the last byte, if there is one, is not a backslash. -/
+theorem RawEndOK_iff_getLast? : ∀ (s : Bytes), RawEndOK s ↔ s.getLast? ≠ some 0x5C
+  | [] => by simp [RawEndOK]
+  | [c] => by simp [RawEndOK]
+  | c :: d :: ds => by
+    rw [RawEndOK_cons, RawEndOK_iff_getLast? (d :: ds), List.getLast?_cons_cons]
+
+theorem RawEndOK_append_backslash (s : Bytes) : ¬ RawEndOK (s ++ [0x5C]) := by
+  rw [RawEndOK_iff_getLast?]; simp
+
+/-- The spelling of a non-empty string never starts with a quote. -/
+theorem rawSpell_head_ne (e : UInt8) (es X : Bytes) (d : UInt8) (ds : Bytes)
+    (h : rawSpell (e :: es) ++ X = d :: ds) : d ≠ 0x27 := by
+  simp only [rawSpell] at h
+  split at h
+  · simp only [List.cons_append, List.cons.injEq] at h; rw [← h.1]; decide
+  · rename_i hc; simp only [List.cons_append, List.cons.injEq] at h; rw [← h.1]; exact hc
+
+theorem rawSpell_head_eq (e : UInt8) (es X : Bytes) (d : UInt8) (ds : Bytes)
+    (h : rawSpell (e :: es) ++ X = d :: ds) : d = 0x5C ∨ d = e := by
+  simp only [rawSpell] at h
+  split at h
+  · simp only [List.cons_append, List.cons.injEq] at h; exact .inl h.1.symm
+  · simp only [List.cons_append, List.cons.injEq] at h; exact .inr h.1.symm
+
+/-- C14 (raw strings): for every ASCII string `s` that does not end with a backslash, scanning
     `rawSpell s ++ "'" ++ rest` yields exactly `s` — backslashes included — and leaves `rest`. -/
-theorem rawBody_rawSpell : ∀ (s : Bytes) (rest : Bytes) (fuel : Nat), Ascii s → RawOK s →
+theorem rawBody_rawSpell : ∀ (s : Bytes) (rest : Bytes) (fuel : Nat), Ascii s → RawEndOK s →
     (rawSpell s).length < fuel → rawBody fuel (rawSpell s ++ 0x27 :: rest) = some (s, rest)
   | [], rest, fuel, _, _, hf => by
     cases fuel with
@@ -79,7 +127,7 @@ theorem rawBody_rawSpell : ∀ (s : Bytes) (rest : Bytes) (fuel : Nat), Ascii s 
   | c :: cs, rest, fuel, ha, hok, hf => by
     have hc : c < 0x80 := ha c (by simp)
     have hacs : Ascii cs := fun x hx => ha x (by simp [hx])
-    have hokcs := RawOK_tail c cs hok
+    have hokcs := RawEndOK_tail c cs hok
     cases fuel with
     | zero => simp at hf
     | succ f =>
@@ -110,17 +158,18 @@ theorem rawBody_rawSpell : ∀ (s : Bytes) (rest : Bytes) (fuel : Nat), Ascii s 
             cases cs with
             | nil => exact hok rfl
             | cons e es =>
-              have he : e < 0x80 := hacs e (by simp)
-              have hne' : e ≠ 0x27 := hok.1 rfl
-              simp only [rawSpell, hne', if_false, List.cons_append, List.cons.injEq] at hnext
-              obtain ⟨rfl, _⟩ := hnext
-              rw [decodeRune_ascii e _ he] at hd
-              exact hne' ((toNat_eq_iff e 0x27 (by decide)).mp hd)
+              have hne' : d ≠ 0x27 := rawSpell_head_ne e es _ d ds hnext
+              have hd80 : d < 0x80 := by
+                rcases rawSpell_head_eq e es _ d ds hnext with h | h
+                · rw [h]; decide
+                · rw [h]; exact hacs e (by simp)
+              rw [decodeRune_ascii d _ hd80] at hd
+              exact hne' ((toNat_eq_iff d 0x27 (by decide)).mp hd)
           rw [if_neg hcond, ← hnext, ih]
           rfl
 
 /-- With the fuel `tokenize` gives the scanner (the length of what follows the opening quote). -/
-theorem rawBody_rawSpell' (s rest : Bytes) (ha : Ascii s) (hok : RawOK s) :
+theorem rawBody_rawSpell' (s rest : Bytes) (ha : Ascii s) (hok : RawEndOK s) :
     rawBody (rawSpell s ++ 0x27 :: rest).length (rawSpell s ++ 0x27 :: rest) = some (s, rest) :=
   rawBody_rawSpell s rest _ ha hok (by simp)
 
